@@ -54,3 +54,21 @@ META = {
    text="Exhaustive TLC exploration of the cache specification for 3-4 keys, capacities 1-4, ttl 1-3 with explicit time; the same specification is bound to the code in both directions: TLC-generated behaviours are executed on the real cache and every recorded step is validated by TLC against the specification and the property formulas. Decides the design within the bounds and the code on every generated/driven behaviour; not a proof for all sizes.",
    note="Virtual time by the verif_age hook (ageing stored instants) instead of real sleeping; the handler-level half (a session idle beyond the timeout is not used to encrypt or accept, cache bounded) is checked on the real handler by the monitor formulas C15.StaleSessionUsed / C15.Capacity; u32 keys stand for NodeAddress in the cache part."),
 }
+
+# ---------------------------------------------------------------------------------------------- C18
+META["C18"] = dict(
+   technique="TLA+ transcription of the GCRA rate limiter and of the two-stage packet filter with the process-global permit/ban list (Filter.tla: rate_limiter.rs, "
+             "filter/mod.rs, permit_ban.rs, handle_inbound order) model-checked exhaustively with TLC at two levels (MC_Limiter, MC_Filter: every arrival sequence, "
+             "prune interleaving, ban/permit combination within the bounds; a second, never-pruned copy is stepped side by side); TLC goal counterexamples, simulation walks "
+             "and seeded random drivers executed on the real Limiter (explicit time) and the real Filter + RateLimiter + PERMIT_BAN_LIST (virtual time by an ageing hook); "
+             "every recorded step validated by TLC: strict conformance (verdicts, stored arrival times, ban list with expiry, tracking maps) and the monitor formulas "
+             "C18.Window / WindowIp / WindowTotal / WindowNode / RefusedWithinQuota / PruneNeutral / BanPermit / ExcessNotBanned / BanTooShort on a ledger of observations",
+   text="Design level: for 1-2 keys / 2 IPs x 2 node ids, bursts 1..4, up to 6-7 arrivals over 3-7 ticks, prune anywhere, every initial combination of ban/permit entries plus "
+        "list operations, the window bound (let-through <= burst + rate x window for every window), 'conforming traffic is never refused', prune neutrality, stage verdicts vs "
+        "ban/permit lists and ban duration hold in every reachable state, and the stronger exact characterisation (refused iff it does not fit with those let through) holds for the limiter. "
+        "Code level: thousands of generated and random behaviours (up to 4 IPs, 5 node ids, bursts up to 8, batches up to 3 tokens) on the real code, each step judged by TLC. "
+        "Bounded model checking + conformance, not a proof for all sizes.",
+   note="Quotas with period divisible by burst only (stated assumption). The limiter level is exact (explicit time); at the filter level the RateLimiter reads the real clock on top of "
+        "the virtual time passed by RateLimiter::verif_age (one tick = 10 s, the real run time of a behaviour is microseconds). socket/recv.rs is not executed: the harness calls "
+        "initial_pass / final_pass in handle_inbound's order. max_nodes_per_ip / max_bans_per_ip are switched off where 'never refused' is judged. The window formulas count a "
+        "datagram as let through only if both stages passed it and exclude datagrams whose IP / node id was on the permit list (the weakest reading of the statement).")
